@@ -11,7 +11,9 @@ def run(cmd, cwd=None, env=None, timeout=3000):
     return p.returncode, (p.stdout + p.stderr)
 env = dict(os.environ, PYTHONPATH=wt)
 ran = []
-rc, _ = run('git checkout -- . && git status --short | grep -v "^??" | wc -l', cwd=wt)
+head = subprocess.run('git -C /repo rev-parse HEAD', shell=True, capture_output=True, text=True).stdout.strip()
+rc, out = run(f'git checkout -- . && git checkout -q --detach {head}', cwd=wt); assert rc == 0, out      # the seed is judged on top of /repo's HEAD
+ran.append(f'worktree at {head[:7]}')
 rc0, out0 = run(f'/venv/bin/python {demo}', cwd=wt, env=env); ran.append(f'demo on pristine worktree: exit {rc0}')
 rc, out = run(f'git apply {patch}', cwd=wt); assert rc == 0, out
 rct, outt = run('/venv/bin/python -m pytest -q -p no:cacheprovider --timeout=900 tests 2>&1 | tail -1', cwd=wt, env=env); ran.append('pytest with change: ' + outt.strip())
